@@ -97,24 +97,15 @@ Clauses17(t, R) ==
                                      CallableOK(t)>> >>
 
 (***************************************************************************)
-(* Known findings: narrow signatures (see known_findings.json).            *)
+(* OPEN known findings: narrow signatures (see known_findings.json).  The  *)
+(* fixed ones (FX-C16-1, FX-C16-2, FX-C17-1) have no tag: a relapse is a   *)
+(* VIOLATION.                                                              *)
 (***************************************************************************)
 KfTags(t, R, clause) ==
   LET c == t.cfg IN
-  CASE clause = "C16_NoRedZoneWriteIfLeaf" ->
-         IF KfRedZone(c, Len(t.scratch)) THEN {"KF-C16-1"} ELSE {}
-    [] clause = "C17_NoRedZoneWriteIfLeaf" ->
-         IF KfRedZone(ConsCfg(c), Len(t.scratch)) THEN {"KF-C16-1"} ELSE {}
-    [] clause = "C16_Completes" ->
-         IF t.exc = "ValueError" /\ t.stage = "allocate" /\ KfReadsRemove(c)
-         THEN {"KF-C16-2"} ELSE {}
-    [] clause = "C16_FlagsUntouchedIfNotDeclared" ->
-         IF KfAlignFlags(c) THEN {"KF-C16-3"} ELSE {}
-    [] clause = "C17_Completes" ->
-         IF t.exc = "AsmSyntaxError" /\ t.stage = "assemble"
-         THEN (IF KfArmNeg(c) THEN {"KF-C17-1"} ELSE {})
-              \cup (IF KfX64Push(c) THEN {"KF-C17-2"} ELSE {})
-         ELSE {}
+  CASE clause = "C17_Completes" ->
+         IF t.exc = "AsmSyntaxError" /\ t.stage = "assemble" /\ KfX64Push(c)
+         THEN {"KF-C17-2"} ELSE {}
     [] clause \in {"C17_ArgRegs", "C17_StackArgs"} ->
          IF \A a \in DOMAIN R : \A k \in DOMAIN R[a].S.calls :
                ArgsOKModuloSymLoad(c, R[a].P, R[a].S.calls[k])
